@@ -307,7 +307,7 @@ Section Later.
   Proof.
     intros Hne H. unfold commit_here.
     destruct (negb (forallb _ (e_refs e))); [exact (J_frame _ _ (frame_rf c _ _ _ Hne) H)|].
-    destruct (negb (e_auth e)); [exact (J_frame _ _ (frame_rf c _ _ _ Hne) H)|apply J_apply_commit; assumption].
+    destruct (negb (e_auth e) || (e_bad e =? 8)); [exact (J_frame _ _ (frame_rf c _ _ _ Hne) H)|apply J_apply_commit; assumption].
   Qed.
 
   Lemma J_here c e r : e_id e <> id -> J c -> J (fst (here c e r)).
@@ -513,7 +513,7 @@ Proof.
         [unfold leave_here; destruct (existsb _ _); [discriminate|]; destruct (is_admin (ens c) && _); [discriminate|];
          destruct (is_admin (ens c)); discriminate|]);
        unfold commit_here; (destruct (negb (forallb _ (e_refs e))); [discriminate|]);
-       (destruct (negb (e_auth e)); [discriminate|]); rewrite apply_commit_rk; discriminate.
+       (destruct (negb (e_auth e) || (e_bad e =? 8)); [destruct (negb (e_auth e)); discriminate|]); rewrite apply_commit_rk; discriminate.
   all: destruct (wrong_epoch (kc (ens c)) e); [|exact Hhere].
   all: destruct (is_commit_kind e && is_better (ens c) (e_epoch e) (e_ts e) (e_key e));
        [|unfold late; destruct (dget (e_id e) (dedup (ens c))) as [d|]; [destruct (d_state d =? PS_COMMIT)|]; discriminate].
@@ -705,7 +705,7 @@ Proof.
        (destruct (N.eqb_spec (e_author e) (me c)) as [E|_]; [contradiction|]);
        rewrite K0; change (0 =? 1) with false; change (0 =? 2) with false; cbv iota;
        unfold commit_here; (destruct (negb (forallb _ (e_refs e))); [discriminate|]);
-       (destruct (negb (e_auth e)); [discriminate|]); intros _;
+       (destruct (negb (e_auth e) || (e_bad e =? 8)); [destruct (negb (e_auth e)); discriminate|]); intros _;
        apply (apply_commit_good (ens c) e); [|exact Hwf1];
        apply wrong_epoch_false_eq; [rewrite K0; discriminate|exact Hw].
 Qed.
@@ -818,7 +818,7 @@ Proof.
         cbv zeta. destruct (is_admin c && _); [apply (DS_rf (set_core c _)); exact H|].
         cbn [fst]. apply (DS_put (set_core c _)). exact H.
       * unfold commit_here. destruct (negb (forallb _ (e_refs e))); [apply DS_rf; exact H|].
-        destruct (negb (e_auth e)); [apply DS_rf; exact H|apply DS_apply_commit; exact H].
+        destruct (negb (e_auth e) || (e_bad e =? 8)); [apply DS_rf; exact H|apply DS_apply_commit; exact H].
 Qed.
 
 Lemma DS_process fuel : forall c e, dedup_stamped c -> dedup_stamped (fst (process fuel c e)).
